@@ -8,6 +8,7 @@ import zlib
 from . import racesim, tlc
 
 ETERNAL = -1
+TIMED = -2
 
 
 async def verif_request(es, params):
@@ -228,17 +229,22 @@ class TracedRace:
             st = "pend" if c in w.pending else ("done" if (c, tid) in fin_set else "pend")
             if c in w.cell_override and (w.cell_override[c] == "failed" or st == "pend"):
                 st = w.cell_override[c]
-            cells.append({"col": self.col_of(c, tid), "rem": ETERNAL if reqs == ETERNAL else reqs - n, "n": n, "st": st})
+            cells.append({"col": self.col_of(c, tid), "rem": reqs if reqs in (ETERNAL, TIMED) else reqs - n, "n": n, "st": st})
         runs = sorted({(c, self.col_of(c, tid)) for c, tid in started})
         finished = [(c, tid) for c, tid in finished if not (w.cell_override.get(c) == "aband" and last.get(c) == tid)]
         fin = sorted({(c, self.col_of(c, tid)) for c, tid in finished})
-        cut = sorted(
-            {
-                (c, self.col_of(c, tid))
-                for c, tid in finished
-                if not (w.cell_override.get(c) == "failed" and last.get(c) == tid) and (self.task_reqs[tid] == ETERNAL or self.completed.get((c, tid), 0) < self.task_reqs[tid])
-            }
-        )
+        def was_cut(c, tid):
+            if w.cell_override.get(c) == "failed" and last.get(c) == tid:
+                return False
+            reqs = self.task_reqs[tid]
+            if reqs == ETERNAL:
+                return True
+            if reqs == TIMED:
+                t0, t1 = w.cell_times.get((c, tid), (None, None))
+                return t0 is not None and t1 is not None and (t1 - t0) < racesim.TIME_PERIOD
+            return self.completed.get((c, tid), 0) < reqs
+
+        cut = sorted({(c, self.col_of(c, tid)) for c, tid in finished if was_cut(c, tid)})
         from esrally.driver import driver as drvmod
 
         skip = []
